@@ -713,7 +713,14 @@ def bulk_backlog(mido, rep):
                 finally:
                     tshim.on_sleep = None
                 got = [g[1] if isinstance(g, tuple) else g for g in got]
-                have = [(m.channel, m.note, m.velocity) for m in got]
+                try:
+                    have = [(m.channel, m.note, m.velocity) for m in got]
+                except AttributeError:
+                    rep.violation(f'{kind}/bulk/{how}/not-a-message',
+                                  f'{kind}: backlog of {n}: {how} handed out '
+                                  f'{[g for g in got if not hasattr(g, "note")][:3]!r}',
+                                  case)
+                    continue
                 ok = sorted(have) == sorted(want)
                 for src in srcs:
                     if [h for h in have if h[0] == src] != \
